@@ -80,7 +80,7 @@ func main() {
 		idx[n] = i
 	}
 	var sb strings.Builder
-	sb.WriteString("import TongoModel.Tlb.Wf\n")
+	sb.WriteString("import TongoModel.Tlb.Wf\nimport TongoModel.Tlb.Chain\n")
 	sb.WriteString("/-! GENERATED on every run by translator X1 (harness/cmd/extract/x1.go + cmd/x1walk) from the Go source by go/ast +\n")
 	sb.WriteString("reflection. One `Ty` descriptor per Go type the TL-B reflection codec can meet, the type environment, and one\n")
 	sb.WriteString("well-formedness obligation per type. Do not edit. -/\n")
@@ -138,6 +138,9 @@ func main() {
 	for _, n := range all {
 		if why, bad := tlbx.NonWf[n]; bad {
 			fmt.Fprintf(&sb, "/-- NOT well formed (pinned in harness/tlbx/nonwf.go): %s -/\ntheorem nwf_%s : wfTop env desc_%s = false := by decide +kernel\n", why, tlbx.LeanIdent(n), tlbx.LeanIdent(n))
+			if chk, ok := tlbx.ChainProved[n]; ok {
+				fmt.Fprintf(&sb, "/-- the shape condition of the reference-chain round-trip theorem -/\ntheorem wfc_%s : %s env desc_%s = true := by decide +kernel\n", tlbx.LeanIdent(n), chk, tlbx.LeanIdent(n))
+			}
 			continue
 		}
 		fmt.Fprintf(&sb, "theorem wf_%s : wfTop env desc_%s = true := by decide +kernel\n", tlbx.LeanIdent(n), tlbx.LeanIdent(n))
